@@ -398,6 +398,18 @@ theorem C05_bounds_are_skipper (b : Bytes) (t : Tx) (r : Bytes) (h : tx b = some
   · intro h0; rw [h0]; rfl
   · intro h0; exact (ofNat_ty_zero bs.ty hty6).1 (Option.some.inj h0)
 
+/-- `TransactionPrefix::hash` of a prefix parsed ON ITS OWN (strictly): the hash of exactly the received bytes, which the by-the-book
+prefix walker consumes entirely (harness op `c05_prefixhash`) -/
+theorem C05_prefix_hash_standalone (H : Bytes → Bytes) (b : Bytes) (p : Prefix) (h : prefix' b = some (p, [])) :
+    prefixHash H p = H b ∧ ∃ pe, Spec.skipPrefix b = some pe ∧ pe.rest = [] ∧ pe.version = p.version ∧
+      pe.inputs = p.ins.length ∧ pe.outputs = p.outs.length := by
+  have e := sound_prefix b p [] h
+  simp only [List.append_nil] at e
+  exact ⟨by rw [e]; rfl, _, WireSkip.skipPrefix_of_prefix h, rfl, rfl, rfl, rfl⟩
+
+example : ∃ p, prefix' [2, 0, 1, 0xff, 5, 0, 0] = some (p, []) ∧ p.ins.length = 1 :=
+  ⟨⟨2, 0, [.gen 5], [], []⟩, by rfl, rfl⟩
+
 /-- THE PROPERTY over the received bytes and the skipper alone (no `pOf`, `qOf`, no re-encoding): whenever the decoder accepts `b`
 (leaving `r`; strict parsing is `r = []`), with `bd` the skipper's answer on `b` and `b'` the consumed part,
 * prefix hash = H(b[0..p]);
